@@ -411,7 +411,10 @@ static void report_failure(const Case& c, const Outcome& o) {
             }
             Case t = case_of(fr);
             Outcome to = evaluate(t);
-            tried[t.spec] = {t, to};
+            if (to.kind == o.kind) {                 // a candidate for the minimal case (keep big files only once)
+                if (t.data.size() > (1u << 20)) tried.clear();
+                tried[t.spec] = {t, to};
+            }
             g_server.send("RES\t" + to.kind);
         } else if (fr.tag == "KEY ") {
             if (fr.f[2] == "subsumed") { ++C["failing_cases_same_class_as_reported"]; return; }
